@@ -265,15 +265,23 @@ pub fn solve(seed: u64, n: usize, out: &str) {
     let mut r = Rng::new(seed ^ 0xC15);
     for i in 0..n {
         let k = 2 + r.below(5) as usize; // orders 2..6
-        // simple interior knots so that the site layouts below are admissible
+        // interior knots (simple, or repeated where the site layout allows it)
         let a = r.uniform(-2.0, 2.0);
         let mut t = vec![a; k];
         let mut cur = a;
         let p = 1 + r.below(5) as usize;
         let mut interior = vec![];
+        let choice = r.below(8);
+        // the site layouts built from the Greville abscissae also admit REPEATED interior knots (multiplicity up to
+        // k - 1: the spline stays continuous); the other layouts place their sites by the interior knots or evenly, which
+        // is admissible for simple knots only
+        let repeats_ok = [0u64, 1, 6, 7].contains(&choice) && k >= 3;
         for _ in 0..p {
             cur += r.uniform(0.4, 2.0);
-            t.push(cur);
+            let mult = if repeats_ok && r.chance(0.3) { 2 + r.below((k - 2) as u64) as usize } else { 1 };
+            for _ in 0..mult.min(k - 1) {
+                t.push(cur);
+            }
             interior.push(cur);
         }
         cur += r.uniform(0.4, 2.0);
@@ -282,7 +290,6 @@ pub fn solve(seed: u64, n: usize, out: &str) {
             t.push(b);
         }
         let nn = t.len() - k;
-        let choice = r.below(8);
         let (tau, left_n, right_n, lsq, layout): (Vec<f64>, usize, usize, bool, &'static str) = match choice {
             0 | 1 => (greville(&t, k), 0, 0, false, "one-site-per-coefficient"),
             2 if k == 4 => {
